@@ -23,7 +23,7 @@ ASSUMPTIONS = ['labels are demanded for clear-cut text only: valid JSON object/a
                'an Accept header with wildcards does not decide between JSON and HTML (O6)',
                'HTML tables are demanded for tabular shapes only (O10); mappings have string keys (or keys of one type)',
                'JSON round trips exclude NaN/Infinity, non-string keys and lone surrogates']
-REQUIRED_REACH = ['basic:text-json', 'basic:text-html', 'basic:text-plain', 'basic:bytes', 'basic:scalar', 'basic:None',
+REQUIRED_REACH = ['rendered-on-another-thread', 'basic:text-json', 'basic:text-html', 'basic:text-plain', 'basic:bytes', 'basic:scalar', 'basic:None',
                   'basic:object', 'basic:generator', 'basic:mapping-json', 'basic:sequence-json', 'basic:table', 'basic:set',
                   'basic:response-passthrough', 'json:roundtrip', 'json-dev:repr-fallback', 'json:streaming', 'jsonp:callback',
                   'jsonp:no-callback', 'label:application/json', 'label:text/html', 'label:text/plain']
@@ -57,7 +57,10 @@ class Plain(object):
 TEXTS_PLAIN = ['hello', '', 'plain text with spaces', 'caf\xe9 ☃ 日本', 'a\nb\nc', 'x' * 5000, 'null', '42', 'true', '"quoted"',
                'key: value', 'not {json}', 'a < b & c > d', 'ends with }', 'tab\tsep', '\x00\x01\x7f',
                ' ', '\n', ' \t\r\n ', '\r\n', '\x0b\x0c', '\u00a0', '\u2028', ' x ', '\n\nx']
-TEXTS_HTML = ['<html><body>hi</body></html>', '<!doctype html><html><head><title>t</title></head><body>é</body></html>',
+TEXTS_HTML = ['<!-- generated 2024-01-01 -->\n<html><body>hi</body></html>', '\ufeff<html><body>bom</body></html>',
+              '<?xml version="1.0" encoding="UTF-8"?>\n<!DOCTYPE html>\n<html><body>x</body></html>', 'Report follows:\n<html><body>r</body></html>',
+              '<!DOCTYPE html>\n<!-- banner -->\n<html lang="en"><body>c</body></html>', '  \n\t<html>\n</html>', '<HTML><BODY>upper</BODY></HTML>'.lower(),
+              '<html><body>hi</body></html>', '<!doctype html><html><head><title>t</title></head><body>é</body></html>',
               '<!DOCTYPE html>\n<html lang="en"><body><p>x</p></body></html>', '<html>\n</html>']
 # JSON text with whitespace around it is JSON text (RFC 8259: ws value ws)
 TEXTS_JSON_PADDED = [' {"a": 1}', '{"a": 1}\n', '\n[1, 2, 3]\n', '\t{"k": [1, {"z": null}]}  ', '[]\r\n', '  {}']
@@ -109,7 +112,10 @@ def exotic(rng, depth=0):
     """values beyond JSON-native: -> (value factory result, jsonable expectation or None)"""
     r = rng.randrange(9)
     if r == 0:
-        return (1, 2, 'three'), [1, 2, 'three']
+        # tuples are sequences - also short ones whose second member happens to look like a status code
+        return rng.pick([((1, 2, 'three'), [1, 2, 'three']), ((7, 200), [7, 200]), (('not found', 404), ['not found', 404]),
+                         (({'id': 5, 'tags': ['x']}, 301), [{'id': 5, 'tags': ['x']}, 301]), (([1, 2, 3], 100), [[1, 2, 3], 100]),
+                         ((None, 599), [None, 599]), (('apples', 3), ['apples', 3]), (('a', 7, None), ['a', 7, None])])
     if r == 1:
         # sets, incl. members that cannot be ordered against each other
         v = rng.pick([set([1, 2, 3]), set(['a']), set(), set([1, 'a']), set([None, 'x', 'y']), frozenset([(1, 2), 7]),
@@ -352,8 +358,12 @@ def judge_basic_container(sh, rng):
     if which == 'tabular':
         query, accept = rng.pick([('format=html', None), ('', 'text/html'), ('format=html', 'application/json'), ('', None),
                                   ('format=json', 'text/html'), ('', 'application/json'), ('', '*/*'),
+                                  # nobody asks for HTML here: refused, or merely related types
+                                  ('', 'text/html;q=0'), ('', 'text/html;q=0, application/json;q=0'), ('', 'application/xml'),
+                                  ('', 'application/xml, image/png;q=0.5'), ('', 'application/xhtml+xml'), ('', 'text/plain'),
+                                  ('', 'text/html;q=0, */*;q=0.1'), ('', 'image/png'),
                                   ('', 'text/html;q=0.9, application/json;q=0.1')])
-        wants_html = ('format=html' in query) or (query == '' and accept is not None and accept.startswith('text/html'))
+        wants_html = ('format=html' in query) or (query == '' and accept in ('text/html', 'text/html;q=0.9, application/json;q=0.1'))
         undecided = query == '' and accept == '*/*'
     else:
         query, accept = rng.pick([('', None), ('format=json', None), ('', 'application/json'), ('format=json', 'text/html')])
@@ -474,11 +484,29 @@ def plan(tier, seed):
 
 def run_shard(sh, spec):
     rng = Rng(spec['seed'], PROPERTY, spec['label'])
-    for _ in range(spec['n']):
-        judge_basic_text(sh, rng)
-        judge_basic_scalar(sh, rng)
-        judge_basic_container(sh, rng)
-        judge_json_renderers(sh, rng)
+
+    def loop(n):
+        for _ in range(n):
+            judge_basic_text(sh, rng)
+            judge_basic_scalar(sh, rng)
+            judge_basic_container(sh, rng)
+            judge_json_renderers(sh, rng)
+    loop(spec['n'] // 2)
+    # servers render on worker threads, not on the thread that imported the renderers and built the application
+    import threading
+    err = []
+
+    def worker():
+        try:
+            loop(spec['n'] - spec['n'] // 2)
+            sh.hit('rendered-on-another-thread')
+        except BaseException as e:     # noqa - hand it to the main thread
+            err.append(e)
+    t = threading.Thread(target=worker)
+    t.start()
+    t.join()
+    if err:
+        raise err[0]
 
 
 def replay(sh, case, spec):
